@@ -58,7 +58,10 @@ class ForeverContinueWriteHandler(AbstractWriteHandler):
             logger.warning("While decompiling, tried to generate continue; outside loop!")
             raise FallbackToJump()
         if not self._continue_is_implicit():
-            self.decompiler.source_map_add_opcode(self.start_vertex["op"].offset)
+            if op.label is not None:
+                # (A vertex that build_loops made up carries the offset of the operation before it. That operation has
+                # its own statement and its own entry.)
+                self.decompiler.source_map_add_opcode(op.offset)
             self.decompiler.write_stmnt("continue;  // may be redundant")
         return None
 
